@@ -161,8 +161,7 @@ def stream_netcdf(c, N, tmp):
         fd = rng.choice([0, 86400 * rng.randint(0, 6000), rng.randint(0, 10 ** 8)]) + 10 ** 8
         ft = rng.choice([0, 0, 3600, -7200, times[len(times) // 2]])
         E = rng.choice([1, 1, 2, 3])
-        stations = rng.sample(rng.choice([["st1", "LoB", "x_1"], ["a", "b", "c"], ["reservoir.long.name", "reservoir.long.nam2"]]),
-                              rng.randint(1, 2))  # equal lengths: see probe C11-N1
+        stations = rng.sample(["st1", "Loc_B", "x", "reservoir.long.name"], rng.randint(1, 3))
         pars = rng.sample(["H", "Q_in", "v"], rng.randint(1, 2))
         vals = {(s, p, m): [rng.choice([NAN, rng.uniform(-1e6, 1e6), 0.0, rng.randint(-9, 9) / 8]) for _ in range(n)]
                 for s in stations for p in pars for m in range(E)}
@@ -591,6 +590,20 @@ def corpus(c, tmp):
     if got != [-3600, 0, 3600]:
         c.fail("netcdf write_times([0,3600,7200], forecast_time=3600, D) must read back D-3600, D, D+3600",
                {"corpus": "F40"}, got)
+    # F41 (fixed 0095ca4): station ids of different lengths
+    for stn in (["x", "long_name"], ["st1", "Loc_B"]):
+        def real():
+            e = nc.ExportDataset(d, "x")
+            e.write_times(np.array([0.0, 3600.0]), 0.0, dtm(10 ** 8))
+            e.write_station_data(_NoStations, stn)
+            e.write_ensemble_data(1)
+            e.create_variables(["v"], 1)
+            e.close()
+            return list(nc.ImportDataset(d, "x").read_station_data().station_ids)
+        r = call(real)
+        c.count(("corpus", "F41", tuple(stn)))
+        if r[0] == "raise" or r[1] != stn:
+            c.fail("netcdf export/import changes station ids of different lengths", {"corpus": "F41", "stations": stn}, r)
     # F7 (fixed 658d814): forecast date 28 h after the start on a 7 h grid
     f = {"tz": None, "bin": None, "recs": [{"hdr": {"var": 0, "member": None, "step": 25200, "start": 0, "stop": 5 * 25200,
                                                   "forecast": 100800, "miss": xv(-999.0), "unit": "m"},
@@ -603,27 +616,3 @@ def corpus(c, tmp):
                {"corpus": "F7"}, {"forecast": sec(r.forecast_datetime), "index": r.forecast_index})
     shutil.rmtree(d, ignore_errors=True)
 
-
-def probes(c, tmp):
-    """dedicated probes of findings that are not (yet) repaired"""
-    import rtctools.data.netcdf as nc
-
-    d = os.path.join(tmp, "probe")
-    os.makedirs(d)
-    out = []
-    for st in (["x", "long_name"], ["st1", "Loc_B"]):
-        def real():
-            e = nc.ExportDataset(d, "x")
-            e.write_times(np.array([0.0, 3600.0]), 0.0, dtm(10 ** 8))
-            e.write_station_data(_NoStations, st)
-            e.write_ensemble_data(1)
-            e.create_variables(["v"], 1)
-            e.close()
-            return list(nc.ImportDataset(d, "x").read_station_data().station_ids)
-        r = call(real)
-        out.append((st, r))
-    bad = [(st, r) for st, r in out if r[0] == "raise" or r[1] != st]
-    c.known_probe("C11-N1", bool(bad),
-                  "netcdf ExportDataset.write_station_data with station ids of different lengths: %s"
-                  % "; ".join("%s -> %s" % (st, r[1]) for st, r in bad))
-    shutil.rmtree(d, ignore_errors=True)
